@@ -196,35 +196,44 @@ Proof.
       apply osafe_iret. cbn [snd]. split; [lia|intros _; lia].
 Qed.
 
-(* `for i.HasBytesLeft() && !stop`: fuel > bytes left is enough *)
+(* `for i.HasBytesLeft() && !stop`: fuel > bytes left is enough; every section starts inside the input and the next
+   one starts further on, so there are at most as many sections as bytes left *)
 Lemma osafe_psi_sections L : forall fuel o, 0 <= o -> (Z.to_nat (L - o) < fuel)%nat ->
-  osafe (psi_sections fuel) L o (fun _ o' => 0 <= o').
+  osafe (psi_sections fuel) L o (fun l o' => 0 <= o' /\ Z.of_nat (length l) <= Z.max 0 (L - o)).
 Proof.
   induction fuel as [|k IH]; intros o Ho Hf; [lia|].
   cbn [psi_sections]. eapply osafe_bind; [apply osafe_has_bytes_left|]. cbv beta. intros more o1 [-> ->].
-  destruct (o <? L) eqn:E; [|apply osafe_iret; lia].
+  destruct (o <? L) eqn:E; [|apply osafe_iret; cbn [length]; lia].
   eapply osafe_bind; [apply osafe_parse_psi_section; lia|]. cbv beta. intros [s stop] o1 [Ho1 Hst]. cbn [snd] in Hst.
-  destruct stop; [apply osafe_iret; lia|].
+  destruct stop; [apply osafe_iret; cbn [length]; lia|].
   specialize (Hst eq_refl).
-  eapply osafe_bind; [apply IH; lia|]. cbv beta. intros r o2 Ho2. apply osafe_iret. lia.
+  eapply osafe_bind; [apply IH; lia|]. cbv beta. intros r o2 [Ho2 Hr]. apply osafe_iret. cbn [length]. lia.
 Qed.
 
 (* parsePSIData: pointer_field, Skip(pointer_field), sections *)
-Theorem osafe_parse_psi_data L o : 0 <= o -> osafe parse_psi_data L o (fun _ o' => 0 <= o').
+Theorem osafe_parse_psi_data L o : 0 <= o ->
+  osafe parse_psi_data L o (fun d o' => 0 <= o' /\ Z.of_nat (length (PSIData_Sections d)) <= L - o - 1).
 Proof.
   intros Ho. unfold parse_psi_data.
   eapply osafe_bind; [apply osafe_next_byte; lia|]. cbv beta. intros b o1 (Hb & -> & HL).
   eapply osafe_bind; [apply osafe_iskip|]. cbv beta. intros _ o2 ->.
   eapply osafe_bind; [apply osafe_loop_fuel|]. cbv beta. intros f o3 [-> ->].
   unfold is_byte in Hb.
-  eapply osafe_bind; [apply osafe_psi_sections; lia|]. cbv beta. intros ss o4 Ho4.
-  apply osafe_iret. lia.
+  eapply osafe_bind; [apply osafe_psi_sections; lia|]. cbv beta. intros ss o4 [Ho4 Hss].
+  apply osafe_iret. cbn [PSIData_Sections]. lia.
 Qed.
 
 Theorem safe_parse_psi_data : safe parse_psi_data any.
 Proof.
   apply safe_of_osafe. intros L o Ho. eapply osafe_weaken; [apply osafe_parse_psi_data; exact Ho|].
-  cbv beta. unfold any. auto.
+  cbv beta. unfold any. intros a o' [H _]. auto.
+Qed.
+
+(* a PSI unit of L bytes has at most L - 1 sections *)
+Theorem parse_psi_data_sections bs d : bytes_ok bs -> parse_psi_data_bytes bs = Ok d ->
+  Z.of_nat (length (PSIData_Sections d)) <= Z.of_nat (length bs) - 1.
+Proof.
+  intros Hb E. destruct (osafe_run_post parse_psi_data _ bs d Hb (osafe_parse_psi_data _ 0 ltac:(lia)) E) as [o' [_ H]]. lia.
 Qed.
 
 (* parsePSIData on any byte string: no panic, only the generic error (never the fuel code) *)
